@@ -10,6 +10,7 @@ PARTS = HEAD + consts('LEAD_SIZE', 'INDEX_HEADER_SIZE', 'INDEX_ENTRY_SIZE', 'HEA
     Prelude('tags.rs'),
     Prelude('getters.rs'),
     Prelude('crypto.rs'),
+    Prelude('alloc.rs'),
     Decl('src/rpm/timestamp.rs', 'struct', 'Timestamp'),
     Prelude('sigs.rs'),
     Raw('pub struct Lead { pub bytes: [u8; 96] }\n'),
@@ -51,7 +52,7 @@ impl Package {
        subs=[ret(),
              ('V: signature::Verifying<Signature = Vec<u8>>', 'V: signature::Verifying', 1, 'R5-associated-type-binding'),
              ('for base64_sig in openpgp_signatures.iter()', 'for base64_sig in vi: openpgp_signatures.iter()', None, 'R15-for-loop-ghost-iterator-name'),
-             ],
+             ] + ALLOC_RULES,
        spec='''    ensures
         r is Ok ==> sig_ok(*self, verifier),''',
        loops={0: '''                invariant
